@@ -7,13 +7,14 @@ using K = VF_KEY;
 #define P(E, ER) pgm::PGMIndex<K, E, ER>
 #if VF_SET == 0
 static const DynFn FNS[] = {&run_dynamic<K, uint32_t, P(1, 0)>, &run_dynamic<K, uint32_t *, P(4, 4)>, &run_dynamic<K, std::string, P(16, 4)>,
-                            &run_dynamic<K, uint32_t, P(2, 2)>};
+                            &run_dynamic<K, uint32_t, P(2, 2)>, &run_dynamic<K, double, P(4, 4)>};
 #elif VF_SET == 1
 static const DynFn FNS[] = {&run_dynamic<K, uint32_t, P(16, 4)>, &run_dynamic<K, std::string, P(1, 0)>, &run_dynamic<K, uint32_t *, P(2, 2)>};
 #elif VF_SET == 2
 static const DynFn FNS[] = {&run_dynamic<K, uint32_t, P(4, 4)>, &run_dynamic<K, std::string, P(2, 2)>};
 #elif VF_SET == 3
-static const DynFn FNS[] = {&run_dynamic<K, uint32_t, P(2, 2)>, &run_dynamic<K, uint32_t *, P(1, 0)>, &run_dynamic<K, std::string, P(4, 4)>};
+static const DynFn FNS[] = {&run_dynamic<K, uint32_t, P(2, 2)>, &run_dynamic<K, uint32_t *, P(1, 0)>, &run_dynamic<K, std::string, P(4, 4)>,
+                            &run_dynamic<K, float, P(1, 0)>};
 #else
 static const DynFn FNS[] = {&run_dynamic<K, uint32_t, P(1, 0)>, &run_dynamic<K, uint32_t, P(16, 4)>};
 #endif
